@@ -10,6 +10,25 @@ use crate::security::*;
 //use crate::consensus_ops::*;
 use log;
 
+/// A session counts once, in the database it has currently selected: selecting the same database
+/// again changes nothing and selecting another one leaves the previous one.
+fn move_connection(
+    previous_db: &Option<String>,
+    db: &Database,
+    dbs_map: &std::collections::HashMap<String, Database>,
+    dbs: &Arc<Databases>,
+) {
+    if previous_db.as_ref() == Some(&db.name) {
+        return;
+    }
+    if let Some(old_db) = previous_db.as_ref().and_then(|name| dbs_map.get(name)) {
+        old_db.dec_connections();
+        set_connection_counter(old_db, dbs);
+    }
+    db.inc_connections(); //Increment the number of connections
+    set_connection_counter(db, dbs);
+}
+
 fn process_request_obj(request: &Request, dbs: &Arc<Databases>, client: &mut Client) -> Response {
     match request.clone() {
         Request::ReplicateIncrement { db: name, key, inc } => apply_if_auth(&client.auth, &|| {
@@ -246,6 +265,7 @@ fn process_request_obj(request: &Request, dbs: &Arc<Databases>, client: &mut Cli
             token,
             user_name,
         } => {
+            let previous_db = client.selected_db_name();
             let dbs_map = dbs.map.read().expect("Could not lock the map mutex");
             let respose: Response = match dbs_map.get(&name.to_string()) {
                 Some(db) => {
@@ -260,8 +280,7 @@ fn process_request_obj(request: &Request, dbs: &Arc<Databases>, client: &mut Cli
                                     &mut *user_name_state,
                                     Some(user_name.clone()),
                                 );
-                                db.inc_connections(); //Increment the number of connections
-                                set_connection_counter(db, &dbs);
+                                move_connection(&previous_db, db, &dbs_map, &dbs);
                                 Response::Ok {}
                             } else {
                                 Response::Error {
@@ -273,8 +292,7 @@ fn process_request_obj(request: &Request, dbs: &Arc<Databases>, client: &mut Cli
                             if is_valid_token(&token, db) {
                                 let mut db_name_state = client.selected_db.name.write().unwrap();
                                 let _ = std::mem::replace(&mut *db_name_state, Some(name.clone()));
-                                db.inc_connections(); //Increment the number of connections
-                                set_connection_counter(db, &dbs);
+                                move_connection(&previous_db, db, &dbs_map, &dbs);
                                 Response::Ok {}
                             } else {
                                 Response::Error {
